@@ -9,7 +9,7 @@ from .drag import PAR_K, LINE0
 TC = 'py_ballisticcalc/trajectory_calc/_trajectory_calc.py'
 SF = 'verif:contracts/specfn.py'
 
-CALC = Built(tc.TrajectoryCalc, config_shape())
+CALC = Built(tc.TrajectoryCalc, config_shape(), used_=True)
 
 
 def state_clauses(c, s):
